@@ -19,7 +19,7 @@
     * `top_level_clean`        conversely the top-level function at EOF ends the run cleanly.
   NOT proved, stated as `def`: `prefix_monotone` (needs locality lemmas for every token producer:
   a producer that stops before the end of a prefix behaves the same on every extension).
-  Finding D43 bounds what can hold: a cut right after a `.` inside a number or name in a collection
+  Finding D43 (known, not repaired) bounds what can hold: a cut right after a `.` inside a number or name in a collection
   yields TWO trailing statements that are not statements of the whole document.
 -/
 import RdfModel.Props.C06Ttl
